@@ -32,7 +32,7 @@ def features_for(i):
   if k == 0:
     return {'named_perm': 0.3}
   if k == 1:
-    return {'agg': 0.5, 'combine': 0.4, 'neg': 0.4, 'argminmax': 0.4, 'n_der': (3, 5), 'max_facts': 5}
+    return {'agg': 0.6, 'combine': 0.4, 'neg': 0.4, 'argminmax': 0.4, 'argk': 0.7, 'n_der': (3, 5), 'max_facts': 6}
   return {'agg': 0.3, 'combine': 0.3, 'neg': 0.3, 'inj': 0.9, 'func': 0.8, 'or': 0.8}
 
 
